@@ -1,74 +1,721 @@
-// c19 harness: real cache-populating apko builds as separate processes against
+// c19 harness: real cache-populating apko builds as separate PROCESSES against
 // a synthetic signed repository served over HTTP with ETags.
+//
+//   - listing stage: cold / warm / offline builds, repository updates (new index
+//     revision, a rebuilt package under the same name-version), k concurrent
+//     builders; after each step the cache directory is listed and handed to the
+//     verified validator; every digest is compared with a build WITHOUT cache.
+//   - crash stage: single-package scenarios in which a build is killed
+//     (VERIF_CRASH_AT, SIGKILL) at each hook point; the same scenario is replayed
+//     on the model inside Coq and the advertised names are compared; recovery
+//     and offline builds are compared with the reference digest.
+//   - trace stage: strace of real builds, abstracted to the model's alphabet,
+//     `accepts protocol trace` evaluated in Coq.
+//   - tamper stage: truncated / swapped / stale entries (exploration).
 package main
 
 import (
+	"encoding/json"
+	"flag"
 	"fmt"
 	"os"
 	"path/filepath"
+	"sort"
+	"strings"
+	"sync"
+	"time"
+
+	"verifharness/gal"
 )
+
+type driver struct {
+	w      *world
+	out    *gal.Writer
+	tier   string
+	rnd    *gal.Rand
+	refs   map[string]string // rev|pkgs -> reference digest (build without cache)
+	ncache int
+	stats  map[string]any
+	tab    string
+	gz     string
+	dh     string
+	nviol  int
+}
+
+func (d *driver) violation(tag string, desc map[string]any) {
+	b, _ := json.Marshal(desc)
+	fmt.Printf("IMPL-VIOLATION tag=%s %s\n", tag, b)
+	d.nviol++
+}
+
+func (d *driver) newCache() string {
+	d.ncache++
+	return filepath.Join(d.w.root, fmt.Sprintf("cache-%d", d.ncache))
+}
+
+// ref = digest of a build with NO cache at repository revision rev
+func (d *driver) ref(rev int, pkgs []string) string {
+	k := fmt.Sprintf("%d|%s", rev, strings.Join(pkgs, ","))
+	if v, ok := d.refs[k]; ok {
+		return v
+	}
+	d.w.setRev(rev)
+	r := d.w.run(runSpec{Pkgs: pkgs})
+	if !r.Res.OK {
+		fmt.Fprintf(os.Stderr, "reference build failed: %+v\n", r)
+		os.Exit(2)
+	}
+	// a build without cache is itself reproducible (otherwise nothing below means anything)
+	r2 := d.w.run(runSpec{Pkgs: pkgs})
+	if r2.Res.Digest != r.Res.Digest {
+		fmt.Fprintf(os.Stderr, "reference build not reproducible: %s vs %s\n", r.Res.Digest, r2.Res.Digest)
+		os.Exit(2)
+	}
+	d.refs[k] = r.Res.Digest
+	return r.Res.Digest
+}
+
+func (d *driver) anyRef(pkgs []string, dig string) bool {
+	for r := range d.w.revs {
+		if d.ref(r, pkgs) == dig {
+			return true
+		}
+	}
+	return false
+}
+
+// triage names the mechanism behind a wrong digest, from the cache listing
+func (d *driver) triage(cache string, deflt string) (string, []string) {
+	es, _ := listCache(cache)
+	if bad := d.w.partialTarUnderFinalName(es); len(bad) > 0 {
+		return "partial-tar-under-final-name", bad
+	}
+	return deflt, nil
+}
+
+func (d *driver) addListing(cache, class string, desc map[string]any) {
+	es, err := listCache(cache)
+	if err != nil {
+		desc["list_error"] = err.Error()
+	}
+	ctx := d.w.newCtx()
+	lt, unknown := ctx.listingTerm(es)
+	desc["entries"] = len(es)
+	desc["unclassified"] = unknown
+	d.out.Add(gal.Case{
+		Term:  fmt.Sprintf("(CListing {| lc_tab := tab; lc_listing := %s |})", lt),
+		Desc:  desc,
+		Class: class,
+	})
+}
+
+// checkBuild compares a build WITH the cache against the reference
+func (d *driver) checkBuild(what string, rev int, pkgs []string, cache string, r runOut, desc map[string]any) {
+	want := d.ref(rev, pkgs)
+	d.w.setRev(rev)
+	desc["result"] = r.Res
+	if !r.Res.OK {
+		tag, bad := d.triage(cache, "build-with-cache-fails")
+		desc["what"], desc["bad"] = what, bad
+		d.violation(tag, desc)
+		return
+	}
+	if r.Res.Digest != want {
+		tag, bad := d.triage(cache, "digest-differs-with-cache")
+		desc["what"], desc["want"], desc["bad"] = what, want, bad
+		d.violation(tag, desc)
+	}
+}
+
+// checkOffline: same digest as SOME served revision (the newest cached index
+// decides which), or an error
+func (d *driver) checkOffline(what string, pkgs []string, cache string, desc map[string]any) string {
+	r := d.w.run(runSpec{Cache: cache, Pkgs: pkgs, Offline: true})
+	if !r.Res.OK {
+		return "error"
+	}
+	if !d.anyRef(pkgs, r.Res.Digest) {
+		tag, bad := d.triage(cache, "offline-digest-differs")
+		dd := map[string]any{"what": what, "offline_result": r.Res, "bad": bad}
+		for k, v := range desc {
+			dd[k] = v
+		}
+		d.violation(tag, dd)
+		return "wrong"
+	}
+	return "ok"
+}
+
+// ---- listing stage ----------------------------------------------------------
+func (d *driver) stageListing() {
+	pk := []string{"app", "plain", "solo"}
+	cache := d.newCache()
+	offl := map[string]int{}
+	step := func(name string, rev int, spec runSpec) {
+		d.w.setRev(rev)
+		spec.Cache, spec.Pkgs = cache, pk
+		r := d.w.run(spec)
+		desc := map[string]any{"exp": "listing", "step": name, "rev": rev}
+		d.checkBuild(name, rev, pk, cache, r, desc)
+		d.addListing(cache, "listing/"+name, desc)
+	}
+	step("cold", 0, runSpec{})
+	reqs := d.w.requests()
+	step("warm", 0, runSpec{})
+	warmReqs := d.w.requests()
+	nget := 0
+	for _, q := range warmReqs {
+		if strings.HasPrefix(q, "GET ") && strings.HasSuffix(q, ".apk") {
+			nget++
+		}
+	}
+	d.stats["cold_requests"], d.stats["warm_requests"], d.stats["warm_apk_gets"] = len(reqs), len(warmReqs), nget
+	offl[d.checkOffline("offline after warm", pk, cache, map[string]any{"exp": "listing"})]++
+	// the repository moves on: new index revision, lib-0.4, app and solo rebuilt under the same name-version
+	step("after-update", 1, runSpec{})
+	offl[d.checkOffline("offline after update", pk, cache, map[string]any{"exp": "listing"})]++
+	// ... and is rolled back: the cached older revision must be used again, not the newer one
+	step("after-rollback", 0, runSpec{})
+	step("forward-again", 1, runSpec{})
+	d.stats["listing_offline"] = offl
+
+	// k concurrent builders, one cold cache
+	ks := []int{2}
+	if d.tier == "thorough" {
+		ks = []int{2, 4, 8}
+	}
+	for _, k := range ks {
+		rounds := 2
+		if d.tier == "thorough" {
+			rounds = 6
+		}
+		for round := 0; round < rounds; round++ {
+			c := d.newCache()
+			d.w.setRev(0)
+			var wg sync.WaitGroup
+			outs := make([]runOut, k)
+			for i := 0; i < k; i++ {
+				wg.Add(1)
+				go func(i int) {
+					defer wg.Done()
+					outs[i] = d.w.run(runSpec{Cache: c, Pkgs: pk})
+				}(i)
+			}
+			wg.Wait()
+			for i := 0; i < k; i++ {
+				d.checkBuild("concurrent", 0, pk, c, outs[i], map[string]any{"exp": "concurrent", "k": k, "round": round, "builder": i})
+			}
+			d.addListing(c, fmt.Sprintf("concurrent/k=%d", k), map[string]any{"exp": "concurrent", "k": k, "round": round})
+			d.checkOffline("offline after concurrent", pk, c, map[string]any{"exp": "concurrent", "k": k})
+		}
+	}
+}
+
+// ---- crash stage ------------------------------------------------------------
+type crashSpec struct {
+	Kind string `json:"kind"` // "", "idx", "pkg", "rebuild"
+	K    int    `json:"k"`
+}
+
+func (c crashSpec) term() string {
+	switch c.Kind {
+	case "idx":
+		return fmt.Sprintf("(CrashIdx %d)", c.K)
+	case "pkg":
+		return fmt.Sprintf("(CrashPkg %d)", c.K)
+	case "rebuild":
+		return fmt.Sprintf("(CrashRebuild %d)", c.K)
+	}
+	return "NoCrash"
+}
+
+// hookFor translates "killed after k atomic steps of phase X" to the hook
+// point and hit number. idxInProc: the index is downloaded by the same
+// process first (one more symlink attempt before the package's).
+func hookFor(c crashSpec, signed, idxInProc bool) string {
+	base := 0
+	if idxInProc {
+		base = 1
+	}
+	switch c.Kind {
+	case "idx":
+		return map[int]string{2: "index.tmp-created#1", 4: "index.body-copied#1", 5: "advertise.pre-symlink#1", 6: "index.post-advertise#1"}[c.K]
+	case "rebuild":
+		return map[int]string{2: "rebuild.created#1", 3: "rebuild.copied#1", 4: "rebuild.closed#1"}[c.K]
+	case "pkg":
+		if signed {
+			switch c.K {
+			case 2:
+				return "expand.tempdir-created#1"
+			case 3:
+				return "expand.stream-created#1"
+			case 6:
+				return "expand.stream-created#2"
+			case 9:
+				return "expand.stream-created#3"
+			case 10:
+				return "expand.tar-created#1"
+			case 13:
+				return "expand.tar-closed#1"
+			case 14:
+				return "expand.streams-closed#1"
+			case 15, 17, 19, 21:
+				return fmt.Sprintf("advertise.pre-symlink#%d", base+(c.K-13)/2)
+			case 16:
+				return "pkg.post-advertise-ctl#1"
+			case 18:
+				return "pkg.post-advertise-sig#1"
+			case 20:
+				return "pkg.post-advertise-dat#1"
+			case 22:
+				return "pkg.post-advertise-tar#1"
+			}
+		} else {
+			switch c.K {
+			case 2:
+				return "expand.tempdir-created#1"
+			case 3:
+				return "expand.stream-created#1"
+			case 6:
+				return "expand.stream-created#2"
+			case 7:
+				return "expand.tar-created#1"
+			case 10:
+				return "expand.tar-closed#1"
+			case 11:
+				return "expand.streams-closed#1"
+			case 12, 14, 16:
+				return fmt.Sprintf("advertise.pre-symlink#%d", base+(c.K-10)/2)
+			case 13:
+				return "pkg.post-advertise-ctl#1"
+			case 15:
+				return "pkg.post-advertise-dat#1"
+			case 17:
+				return "pkg.post-advertise-tar#1"
+			}
+		}
+	}
+	return ""
+}
+
+type sbuild struct {
+	Rev   int       `json:"rev"`
+	Crash crashSpec `json:"crash"`
+}
+
+// runScenario runs the builds of one scenario for package pkg on a fresh
+// cache; after EVERY build it emits a scenario case (prefix of the scenario)
+// so that the state right after each kill is compared with the model too.
+func (d *driver) runScenario(name, pkg string, builds []sbuild) {
+	cache := d.newCache()
+	pk := []string{pkg}
+	var terms []string
+	var completed []string
+	var hooks []string
+	for i, sb := range builds {
+		d.w.setRev(sb.Rev)
+		rev := d.w.revs[sb.Rev]
+		b := d.w.built(sb.Rev, pkg)
+		signed := b.Sig != nil
+		_, err := os.Stat(filepath.Join(cache, d.w.cacheRepoDir(), arch, "APKINDEX", rev.b32+".tar.gz"))
+		idxInProc := err != nil
+		hook := ""
+		if sb.Crash.Kind != "" {
+			hook = hookFor(sb.Crash, signed, idxInProc)
+			if hook == "" {
+				fmt.Fprintf(os.Stderr, "no hook for %+v\n", sb.Crash)
+				os.Exit(2)
+			}
+		}
+		hooks = append(hooks, hook)
+		r := d.w.run(runSpec{Cache: cache, Pkgs: pk, CrashAt: hook})
+		done := !r.Killed && r.Res.OK
+		completed = append(completed, gal.Bool(done))
+		terms = append(terms, fmt.Sprintf("{| b_idir := %s; b_etag := %s; b_pdir := %s; b_apk := %s; b_crash := %s |}",
+			gal.Str(idir), gal.Str(rev.b32), gal.Str(pdirOf(b)), apkTerm(b), sb.Crash.term()))
+		desc := map[string]any{"exp": "scenario", "name": name, "pkg": pkg, "builds": builds[:i+1], "hooks": append([]string{}, hooks...),
+			"killed": r.Killed, "result": r.Res}
+		if done {
+			// a build that ran to the end with the cache must equal the build without it
+			d.checkBuild("scenario "+name, sb.Rev, pk, cache, r, desc)
+		} else if !r.Killed {
+			tag, bad := d.triage(cache, "build-with-cache-fails")
+			desc["bad"] = bad
+			d.violation(tag, desc)
+		}
+		es, _ := listCache(cache)
+		ctx := d.w.newCtx()
+		lt, unknown := ctx.listingTerm(es)
+		desc["unclassified"] = unknown
+		d.out.Add(gal.Case{
+			Term: fmt.Sprintf("(CScenario {| sc_tab := tab; sc_gz := gzt; sc_dh := dht; sc_builds := %s; sc_completed := %s; sc_observed := %s |})",
+				gal.List(terms), gal.List(completed), lt),
+			Desc:  desc,
+			Class: "scenario/" + name,
+			Key:   fmt.Sprintf("%s/%s/%d/%v", name, pkg, i, builds[:i+1]),
+		})
+	}
+	last := builds[len(builds)-1]
+	o := d.checkOffline("offline after scenario "+name, pk, cache, map[string]any{"exp": "scenario", "name": name, "pkg": pkg, "builds": builds})
+	m, _ := d.stats["scenario_offline"].(map[string]int)
+	if m == nil {
+		m = map[string]int{}
+	}
+	m[o]++
+	d.stats["scenario_offline"] = m
+	_ = last
+}
+
+func (d *driver) stageCrash() {
+	type pk struct {
+		name   string
+		points []int
+	}
+	signedPts := []int{2, 3, 6, 9, 10, 13, 14, 15, 16, 17, 18, 19, 20, 21, 22}
+	unsignedPts := []int{2, 3, 6, 7, 10, 11, 12, 13, 14, 15, 16, 17}
+	pks := []pk{{"solo", signedPts}, {"plain", unsignedPts}}
+	nc := crashSpec{}
+	for _, p := range pks {
+		// every index hook point, then recovery
+		if p.name == "solo" {
+			for _, k := range []int{2, 4, 5, 6} {
+				d.runScenario(fmt.Sprintf("idx-kill-%d", k), p.name, []sbuild{{0, crashSpec{"idx", k}}, {0, nc}})
+			}
+		}
+		// every package hook point once, then recovery with the cache
+		for _, k := range p.points {
+			if p.name == "plain" && d.tier == "quick" && !(k == 7 || k == 13 || k == 15) {
+				continue
+			}
+			d.runScenario(fmt.Sprintf("pkg-kill-%d", k), p.name, []sbuild{{0, crashSpec{"pkg", k}}, {0, nc}})
+		}
+	}
+	// killed twice in a row at different points, then recovery
+	d.runScenario("two-kills", "solo", []sbuild{{0, crashSpec{"pkg", 16}}, {0, crashSpec{"pkg", 10}}, {0, nc}})
+	// repository update between builds: new index revision + rebuilt package of the same name-version
+	d.runScenario("update", "solo", []sbuild{{0, nc}, {1, nc}, {0, nc}, {1, nc}})
+	d.runScenario("update-idx-kill", "solo", []sbuild{{0, nc}, {1, crashSpec{"idx", 4}}, {1, nc}, {0, nc}})
+	d.runScenario("update-pkg-kill", "solo", []sbuild{{0, nc}, {1, crashSpec{"pkg", 18}}, {1, nc}, {0, nc}})
+	d.runScenario("update-pkg-kill-20", "solo", []sbuild{{0, crashSpec{"pkg", 20}}, {1, nc}, {1, nc}})
+	// the in-place rebuild of <hash>.dat.tar (candidate C19-F1): killed between
+	// advertising .dat.tar.gz and .dat.tar, then a build killed inside the rebuild
+	sd, ud := 20, 15
+	for _, rk := range []int{2, 3, 4} {
+		d.runScenario(fmt.Sprintf("rebuild-kill-%d", rk), "solo", []sbuild{{0, crashSpec{"pkg", sd}}, {0, crashSpec{"rebuild", rk}}, {0, nc}})
+	}
+	d.runScenario("rebuild-complete", "solo", []sbuild{{0, crashSpec{"pkg", sd}}, {0, nc}, {0, nc}})
+	d.runScenario("rebuild-kill-2-unsigned", "plain", []sbuild{{0, crashSpec{"pkg", ud}}, {0, crashSpec{"rebuild", 2}}, {0, nc}})
+	if d.tier == "thorough" {
+		d.runScenario("rebuild-kill-pre-symlink", "solo", []sbuild{{0, crashSpec{"pkg", 21}}, {0, crashSpec{"rebuild", 2}}, {0, nc}})
+		for _, k := range signedPts {
+			d.runScenario(fmt.Sprintf("update-then-kill-%d", k), "solo", []sbuild{{0, nc}, {1, crashSpec{"pkg", k}}, {1, nc}, {0, nc}})
+		}
+	}
+	d.stageStallKill()
+	d.stageForced()
+	if d.tier == "thorough" {
+		d.stageRandomKills()
+	}
+}
+
+// killed DURING a file write: the origin stalls in the middle of a body, the
+// build is killed from outside, then recovery + offline
+func (d *driver) stageStallKill() {
+	type sk struct {
+		suffix string
+		after  int
+		pkg    string
+	}
+	cases := []sk{{"/x86_64/APKINDEX.tar.gz", 300, "solo"}, {"/x86_64/solo-3.0-r0.apk", 500, "solo"}, {"/x86_64/solo-3.0-r0.apk", 900, "solo"}}
+	for _, c := range cases {
+		cache := d.newCache()
+		d.w.setRev(0)
+		pk := []string{c.pkg}
+		st := d.w.stallAt(c.suffix, c.after)
+		cmd, resf := d.w.command(runSpec{Cache: cache, Pkgs: pk})
+		t0 := time.Now()
+		if err := cmd.Start(); err != nil {
+			continue
+		}
+		select {
+		case <-st.reached:
+			time.Sleep(30 * time.Millisecond) // let the client write what it received
+		case <-time.After(20 * time.Second):
+		}
+		cmd.Process.Kill()
+		r := finish(cmd, resf, t0)
+		close(st.release)
+		desc := map[string]any{"exp": "stall-kill", "path": c.suffix, "after_bytes": c.after, "killed": r.Killed}
+		d.addListing(cache, "stall-kill/after-kill", desc)
+		o := d.checkOffline("offline after a download killed mid-body", pk, cache, desc)
+		r2 := d.w.run(runSpec{Cache: cache, Pkgs: pk})
+		desc2 := map[string]any{"exp": "stall-kill", "path": c.suffix, "after_bytes": c.after, "offline_after_kill": o}
+		d.checkBuild("recovery after a download killed mid-body", 0, pk, cache, r2, desc2)
+		d.addListing(cache, "stall-kill/after-recovery", desc2)
+		d.checkOffline("offline after recovery", pk, cache, desc2)
+	}
+}
+
+// two PROCESSES forced into one interleaving with VERIF_WAIT_AT
+func (d *driver) stageForced() {
+	type fc struct {
+		name   string
+		waitAt string // where builder A is held
+		bCrash string // where builder B is killed ("" = runs to the end)
+		bWait  string // alternatively: where builder B is held while A finishes
+	}
+	cases := []fc{
+		// A holds between advertising .dat.tar.gz and .dat.tar; B (a complete build) rebuilds the tar in place
+		{"hold-A-before-tar/B-complete", "pkg.post-advertise-dat#1", "", ""},
+		// A holds before its first symlink; B populates everything; A then finds every destination present
+		{"hold-A-before-ctl/B-complete", "pkg.pre-advertise-ctl#1", "", ""},
+		{"hold-A-at-pre-symlink/B-complete", "advertise.pre-symlink#2", "", ""},
+		// B is HELD inside the rebuild (empty file under the final name) while A finishes: no process is killed
+		{"hold-A-before-tar/B-held-in-rebuild", "pkg.post-advertise-dat#1", "", "rebuild.created#1"},
+	}
+	pk := []string{"solo"}
+	for _, c := range cases {
+		cache := d.newCache()
+		d.w.setRev(0)
+		wfA := filepath.Join(d.w.root, fmt.Sprintf("waitA-%d", d.ncache))
+		wfB := filepath.Join(d.w.root, fmt.Sprintf("waitB-%d", d.ncache))
+		cmdA, resA := d.w.command(runSpec{Cache: cache, Pkgs: pk, WaitAt: c.waitAt, WaitF: wfA})
+		tA := time.Now()
+		if err := cmdA.Start(); err != nil {
+			continue
+		}
+		waitFor(wfA+".reached", 20*time.Second)
+		desc := map[string]any{"exp": "forced", "name": c.name}
+		if c.bWait == "" {
+			rB := d.w.run(runSpec{Cache: cache, Pkgs: pk, CrashAt: c.bCrash})
+			if c.bCrash == "" {
+				d.checkBuild("forced "+c.name+" (B)", 0, pk, cache, rB, map[string]any{"exp": "forced", "name": c.name, "builder": "B"})
+			}
+			d.addListing(cache, "forced/"+c.name+"/A-held", desc)
+			os.WriteFile(wfA, nil, 0o644)
+			rA := finish(cmdA, resA, tA)
+			d.checkBuild("forced "+c.name+" (A)", 0, pk, cache, rA, map[string]any{"exp": "forced", "name": c.name, "builder": "A"})
+		} else {
+			cmdB, resB := d.w.command(runSpec{Cache: cache, Pkgs: pk, WaitAt: c.bWait, WaitF: wfB})
+			tB := time.Now()
+			if err := cmdB.Start(); err != nil {
+				continue
+			}
+			waitFor(wfB+".reached", 20*time.Second)
+			d.addListing(cache, "forced/"+c.name+"/both-held", desc)
+			os.WriteFile(wfA, nil, 0o644)
+			rA := finish(cmdA, resA, tA)
+			d.checkBuild("forced "+c.name+" (A, finishing while B is inside the rebuild; nobody is killed)", 0, pk, cache, rA,
+				map[string]any{"exp": "forced", "name": c.name, "builder": "A"})
+			os.WriteFile(wfB, nil, 0o644)
+			rB := finish(cmdB, resB, tB)
+			d.checkBuild("forced "+c.name+" (B)", 0, pk, cache, rB, map[string]any{"exp": "forced", "name": c.name, "builder": "B"})
+		}
+		d.addListing(cache, "forced/"+c.name+"/end", desc)
+		r3 := d.w.run(runSpec{Cache: cache, Pkgs: pk})
+		d.checkBuild("forced "+c.name+" (later build)", 0, pk, cache, r3, map[string]any{"exp": "forced", "name": c.name, "builder": "later"})
+	}
+}
+
+func waitFor(path string, max time.Duration) bool {
+	deadline := time.Now().Add(max)
+	for time.Now().Before(deadline) {
+		if _, err := os.Stat(path); err == nil {
+			return true
+		}
+		time.Sleep(2 * time.Millisecond)
+	}
+	return false
+}
+
+var allHooks = []string{"index.tmp-created", "index.body-copied", "index.pre-advertise", "index.post-advertise",
+	"advertise.pre-symlink", "advertise.linked", "advertise.pre-remove",
+	"expand.tempdir-created", "expand.stream-created", "expand.tar-created", "expand.tar-closed", "expand.streams-closed",
+	"pkg.pre-advertise-ctl", "pkg.post-advertise-ctl", "pkg.pre-advertise-sig", "pkg.post-advertise-sig",
+	"pkg.pre-advertise-dat", "pkg.post-advertise-dat", "pkg.pre-advertise-tar", "pkg.post-advertise-tar",
+	"rebuild.created", "rebuild.copied", "rebuild.closed"}
+
+// multi-package builds (packages expanded concurrently inside each process),
+// several processes, random kills, then recovery — validator + digests only
+func (d *driver) stageRandomKills() {
+	pk := []string{"app", "plain", "solo"}
+	for round := 0; round < 40; round++ {
+		cache := d.newCache()
+		d.w.setRev(0)
+		nkill := 1 + d.rnd.Intn(3)
+		var hooks []string
+		for i := 0; i < nkill; i++ {
+			h := fmt.Sprintf("%s#%d", gal.Pick(d.rnd, allHooks), 1+d.rnd.Intn(4))
+			hooks = append(hooks, h)
+			if d.rnd.Chance(1, 3) {
+				// concurrently with an unkilled builder
+				var wg sync.WaitGroup
+				var other runOut
+				wg.Add(1)
+				go func() { defer wg.Done(); other = d.w.run(runSpec{Cache: cache, Pkgs: pk}) }()
+				d.w.run(runSpec{Cache: cache, Pkgs: pk, CrashAt: h})
+				wg.Wait()
+				d.checkBuild("random-kills (concurrent survivor)", 0, pk, cache, other, map[string]any{"exp": "random-kills", "round": round, "hooks": hooks})
+			} else {
+				d.w.run(runSpec{Cache: cache, Pkgs: pk, CrashAt: h})
+			}
+		}
+		desc := map[string]any{"exp": "random-kills", "round": round, "hooks": hooks}
+		d.addListing(cache, "random-kills/after-kills", desc)
+		r := d.w.run(runSpec{Cache: cache, Pkgs: pk})
+		d.checkBuild("random-kills recovery", 0, pk, cache, r, desc)
+		d.checkOffline("offline after random kills", pk, cache, desc)
+		d.addListing(cache, "random-kills/after-recovery", desc)
+	}
+}
+
+// ---- tamper stage (exploration outside the protocol) --------------------------
+func (d *driver) stageTamper() {
+	pk := []string{"solo"}
+	res := map[string]string{}
+	try := func(name string, mutate func(cache string) error) {
+		cache := d.newCache()
+		d.w.setRev(0)
+		d.w.run(runSpec{Cache: cache, Pkgs: pk})
+		if err := mutate(cache); err != nil {
+			res[name] = "setup failed: " + err.Error()
+			return
+		}
+		r := d.w.run(runSpec{Cache: cache, Pkgs: pk})
+		switch {
+		case !r.Res.OK:
+			res[name] = "error"
+		case r.Res.Digest == d.ref(0, pk):
+			res[name] = "same-image"
+		default:
+			res[name] = "DIFFERENT-IMAGE"
+		}
+	}
+	b := d.w.built(0, "solo")
+	other := d.w.built(0, "base")
+	pdir := func(cache string) string { return filepath.Join(cache, d.w.cacheRepoDir(), pdirOf(b)) }
+	target := func(cache, suffix string) (string, error) {
+		m, _ := filepath.Glob(filepath.Join(pdir(cache), "*"+suffix))
+		if len(m) != 1 {
+			return "", fmt.Errorf("no unique %s", suffix)
+		}
+		return filepath.EvalSymlinks(m[0])
+	}
+	try("truncate-ctl-to-0", func(c string) error {
+		t, err := target(c, ".ctl.tar.gz")
+		if err != nil {
+			return err
+		}
+		return os.Truncate(t, 0)
+	})
+	try("truncate-dat.tar.gz-half", func(c string) error {
+		t, err := target(c, ".dat.tar.gz")
+		if err != nil {
+			return err
+		}
+		fi, _ := os.Stat(t)
+		return os.Truncate(t, fi.Size()/2)
+	})
+	try("truncate-dat.tar-at-block-boundary", func(c string) error {
+		t, err := target(c, ".dat.tar")
+		if err != nil {
+			return err
+		}
+		return os.Truncate(t, 1024)
+	})
+	try("truncate-dat.tar-mid-block", func(c string) error {
+		t, err := target(c, ".dat.tar")
+		if err != nil {
+			return err
+		}
+		return os.Truncate(t, 700)
+	})
+	try("swap-dat.tar-with-other-package", func(c string) error {
+		t, err := target(c, ".dat.tar")
+		if err != nil {
+			return err
+		}
+		return os.WriteFile(t, gunzip(other.Data), 0o644)
+	})
+	try("swap-ctl-with-other-package", func(c string) error {
+		t, err := target(c, ".ctl.tar.gz")
+		if err != nil {
+			return err
+		}
+		return os.WriteFile(t, other.Control, 0o644)
+	})
+	try("stale-etag-entry-holds-other-revision", func(c string) error {
+		p := filepath.Join(c, d.w.cacheRepoDir(), arch, "APKINDEX", d.w.revs[0].b32+".tar.gz")
+		t, err := filepath.EvalSymlinks(p)
+		if err != nil {
+			return err
+		}
+		return os.WriteFile(t, d.w.revs[1].index, 0o644)
+	})
+	try("truncate-index-entry", func(c string) error {
+		p := filepath.Join(c, d.w.cacheRepoDir(), arch, "APKINDEX", d.w.revs[0].b32+".tar.gz")
+		t, err := filepath.EvalSymlinks(p)
+		if err != nil {
+			return err
+		}
+		return os.Truncate(t, 200)
+	})
+	d.stats["tamper_exploration"] = res
+	keys := []string{}
+	for k := range res {
+		keys = append(keys, k)
+	}
+	sort.Strings(keys)
+	for _, k := range keys {
+		fmt.Fprintf(os.Stderr, "tamper %-45s %s\n", k, res[k])
+	}
+}
 
 func main() {
 	if len(os.Args) > 1 && os.Args[1] == "-worker" {
 		workerMain(os.Args[2:])
 		return
 	}
-	if len(os.Args) > 1 && os.Args[1] == "-probe" {
-		probe()
-		return
-	}
-}
+	out := flag.String("out", "", "cases dir")
+	seed := flag.Uint64("seed", 1, "seed")
+	tier := flag.String("tier", "quick", "tier")
+	stage := flag.String("stage", "all", "listing|crash|trace|tamper|all")
+	flag.String("replay", "", "unused")
+	flag.Parse()
 
-func probe() {
 	w, err := newWorld(2)
 	if err != nil {
-		panic(err)
+		fmt.Fprintln(os.Stderr, err)
+		os.Exit(2)
 	}
 	defer w.close()
-	pk := []string{"app", "plain"}
-	ref := w.run(runSpec{Pkgs: pk})
-	fmt.Printf("reference (no cache): %+v\n", ref)
-	cache := filepath.Join(w.root, "cache")
-	r1 := w.run(runSpec{Cache: cache, Pkgs: pk, Trace: filepath.Join(w.root, "trace1")})
-	fmt.Printf("cold cache: %+v\n", r1)
-	fmt.Println(w.requests())
-	es, _ := listCache(cache)
-	for _, e := range es {
-		fmt.Printf("  %-4s %s -> %s %d %.12s\n", e.Kind, e.Path, e.Target, e.Size, e.Hash)
+	d := &driver{w: w, tier: *tier, rnd: gal.NewRand(*seed), refs: map[string]string{}, stats: map[string]any{}}
+	d.tab, d.gz, d.dh = w.originTable()
+	d.out = &gal.Writer{Dir: *out, Type: "c19_case", Check: "check_c19", Shard: 40,
+		Require: "From Apko Require Import Corr.C19.\nOpen Scope string_scope. Open Scope list_scope.\n" +
+			"Definition tab : origin_table := " + d.tab + ".\n" +
+			"Definition gzt : list (content * content) := " + d.gz + ".\n" +
+			"Definition dht : list (content * string) := " + d.dh + ".\n"}
+	t0 := time.Now()
+	if *stage == "all" || *stage == "listing" {
+		d.stageListing()
 	}
-	b, _ := os.ReadFile(filepath.Join(w.root, "trace1"))
-	fmt.Println(string(b))
-	r2 := w.run(runSpec{Cache: cache, Pkgs: pk})
-	fmt.Printf("warm cache: %+v\n", r2)
-	fmt.Println(w.requests())
-	r3 := w.run(runSpec{Cache: cache, Pkgs: pk, Offline: true})
-	fmt.Printf("offline: %+v\n", r3)
-	fmt.Println(w.requests())
-	// candidate C19-F1
-	c2 := filepath.Join(w.root, "cache2")
-	pk = []string{"lib"}
-	ref = w.run(runSpec{Pkgs: pk})
-	fmt.Printf("F1 reference: %+v\n", ref.Res)
-	k1 := w.run(runSpec{Cache: c2, Pkgs: pk, CrashAt: "pkg.post-advertise-dat#1"})
-	fmt.Printf("F1 kill1: %+v\n", k1)
-	k2 := w.run(runSpec{Cache: c2, Pkgs: pk, CrashAt: "rebuild.created#1"})
-	fmt.Printf("F1 kill2: %+v\n", k2)
-	es, _ = listCache(c2)
-	for _, e := range es {
-		if e.Kind != "dir" {
-			fmt.Printf("  %-4s %s -> %s %d %.12s\n", e.Kind, e.Path[len(w.cacheRepoDir()):], e.Target, e.Size, e.Hash)
-		}
+	if *stage == "all" || *stage == "crash" {
+		d.stageCrash()
 	}
-	r4 := w.run(runSpec{Cache: c2, Pkgs: pk})
-	fmt.Printf("F1 recovery with cache: %+v\n", r4.Res)
-	r5 := w.run(runSpec{Cache: c2, Pkgs: pk, Offline: true})
-	fmt.Printf("F1 offline with cache: %+v\n", r5.Res)
-	// offline with leftover tmp
-	c3 := filepath.Join(w.root, "cache3")
-	w.run(runSpec{Cache: c3, Pkgs: pk})
-	w.setRev(1)
-	k3 := w.run(runSpec{Cache: c3, Pkgs: pk, CrashAt: "index.tmp-created#1"})
-	fmt.Printf("O kill: %+v\n", k3)
-	r6 := w.run(runSpec{Cache: c3, Pkgs: pk, Offline: true})
-	fmt.Printf("O offline after killed index download: %+v\n", r6.Res)
+	if *stage == "all" || *stage == "trace" {
+		d.stageTrace()
+	}
+	if *stage == "all" || *stage == "tamper" {
+		d.stageTamper()
+	}
+	d.stats["harness_wall_s"] = time.Since(t0).Seconds()
+	d.stats["impl_violation_lines"] = d.nviol
+	d.stats["exploration_note"] = "crash, concurrency and tamper experiments are exploration supporting the model; the quantification over all crash points and interleavings is carried by c19_invariant"
+	if err := d.out.Flush(); err != nil {
+		fmt.Fprintln(os.Stderr, err)
+		os.Exit(2)
+	}
+	b, _ := json.Marshal(d.stats)
+	fmt.Printf("STAT %s\n", b)
 }
